@@ -6,7 +6,10 @@
 (* to every edge position report: a (the cell that owns the edge as its    *)
 (* top/left) and b (the neighbour, as its bottom/right; "edge" where the   *)
 (* table has no neighbour), on the open document (oa, ob) and on the file  *)
-(* saved at that point and opened again (ra, rb).                          *)
+(* saved at that point and opened again (ra, rb).  v = "reopen": the       *)
+(* document object is replaced by one loaded from the last saved file.     *)
+(* Only Level A is judged here (edge = last writer wins), so the trace may *)
+(* start from any line content (init).                                     *)
 (***************************************************************************)
 EXTENDS Borders, Json, IOUtils, TLCExt
 Traces == ndJsonDeserialize(IOEnv.TRACE_FILE)
@@ -16,14 +19,17 @@ RejBase == 1000000
 NEv == Len(Traces[tid].ev)
 Evt == Traces[tid].ev[l]
 Same(view, e) == \A i \in 1..N : view[i] = "edge" \/ view[i] = e[i]
-Act == Stroke(Evt.o, Evt.len, Evt.v)
+Act == IF Evt.v = "reopen" THEN Reopen ELSE Stroke(Evt.o, Evt.len, Evt.v)
 Matches == Act /\ Same(Evt.oa, edge') /\ Same(Evt.ob, edge') /\ Same(Evt.ra, edge') /\ Same(Evt.rb, edge')
 Clause == IF ~ENABLED Act THEN "not-enabled"
           ELSE IF ~ENABLED (Act /\ Same(Evt.oa, edge')) THEN "open.own-side"
           ELSE IF ~ENABLED (Act /\ Same(Evt.ob, edge')) THEN "open.neighbour-side"
           ELSE IF ~ENABLED (Act /\ Same(Evt.ra, edge')) THEN "reopened.own-side"
           ELSE "reopened.neighbour-side"
-TInit == tid \in 1..Len(Traces) /\ l = 1 /\ Init
+\* init: what the line showed before the first recorded call (all "none" on a new table; the existing borders of a fixture table)
+TInit == /\ tid \in 1..Len(Traces) /\ l = 1
+         /\ edge = [i \in 1..N |-> Traces[tid].init[i]] /\ runs = <<>> /\ maxOrder = 1 /\ hist = <<>>
+         /\ openv = [i \in 1..N |-> [value |-> Traces[tid].init[i], order |-> 0]]
 Step == l <= NEv /\ Matches /\ l' = l + 1 /\ UNCHANGED tid
 Reject == /\ l <= NEv /\ ~ENABLED Matches /\ PrintT(<<"REJECT", tid, l, "stroke", Clause>>) /\ l' = RejBase + l /\ UNCHANGED <<vars, tid>>
 Finish == (l = NEv + 1 \/ l >= RejBase) /\ UNCHANGED tvars
